@@ -5,9 +5,11 @@ package main
 // unprotected header names one.
 
 import (
+	"crypto"
 	"crypto/ecdsa"
 	"crypto/ed25519"
 	"crypto/rand"
+	"crypto/rsa"
 	"crypto/sha256"
 	"fmt"
 
@@ -104,6 +106,17 @@ func handSignedChecks(r *Run, rng *Rng) {
 				r.Fail("control-decodes", fmt.Sprintf("%s: a well-formed token signed by hand does not decode: %v", ht.label, err))
 			}
 			continue
+		}
+		if ht.protAlg {
+			// key objects no signature can be checked with: a panic inside the crypto library is not ours to judge, but
+			// "verified" is wrong
+			for name, bad := range map[string]crypto.PublicKey{"short ed25519 key": ed25519.PublicKey([]byte{1, 2, 3}), "nil *ecdsa.PublicKey": (*ecdsa.PublicKey)(nil),
+				"nil *rsa.PublicKey": (*rsa.PublicKey)(nil), "zero rsa.PublicKey": &rsa.PublicKey{}, "zero ecdsa.PublicKey": &ecdsa.PublicKey{}} {
+				var verr error
+				if pan, _ := safely(func() { verr = ev.Verify(bad) }); !pan && verr == nil {
+					r.Fail("different-key-verifies", fmt.Sprintf("%s: Verify with a %s reports success", ht.label, name))
+				}
+			}
 		}
 		for _, k := range keys() {
 			var verr error
